@@ -412,3 +412,18 @@ PROPS["C17"]["kani"] = list(PROPS["C17"]["kani"]) + ["k_wyckoff_new_%s" % g for 
 PROPS["C16"]["kani"] = list(PROPS["C16"]["kani"]) + ["k_wyckoff_new_bad"]
 for _p in ("C07", "C11"):
     PROPS[_p]["units"] = list(PROPS[_p].get("units", [])) + (["cli"] if "cli" not in PROPS[_p].get("units", []) else [])
+# A shim that assumes a clause proved in another unit takes the clause's text from that unit (`@clause(unit:fn:id)` in a .unit file); every
+# property that builds the assuming unit also builds the proving one, so the clause is discharged in the same run (tools/deadtags.py checks it).
+import os as _os, re as _re
+_ud = _os.path.join(_os.path.dirname(_os.path.dirname(_os.path.abspath(__file__))), "units")
+IMPORTS = {}
+for _f in sorted(_os.listdir(_ud)):
+    if _f.endswith(".unit"):
+        _src = sorted(set(_re.findall(r"@clause\((\w+):\w+:[\w.]+\)", open(_os.path.join(_ud, _f)).read())))
+        if _src:
+            IMPORTS[_f[:-5]] = _src
+for _p in PROPS:
+    for _u in list(PROPS[_p].get("units", [])):
+        for _s in IMPORTS.get(_u, []):
+            if _s not in PROPS[_p]["units"]:
+                PROPS[_p]["units"] = list(PROPS[_p]["units"]) + [_s]
